@@ -137,20 +137,27 @@ func newWL(spec Workload, root string, idx int) *WL {
 }
 
 type caseDesc struct {
-	Workload Workload    `json:"workload"`
-	Op       int         `json:"op"`
-	Kind     string      `json:"kind"`
-	Ok       bool        `json:"ok"`
-	Err      string      `json:"err,omitempty"`
-	Calls    []string    `json:"calls"`
-	Faults   []faultDesc `json:"faults,omitempty"`
-	Tags     []string    `json:"tags,omitempty"`
+	Workload Workload `json:"workload"`
+	Op       int      `json:"op"`
+	Kind     string   `json:"kind"`
+	// fault kind explored by this case: "error" (crash images + call k returns an error on a live context) or
+	// "cancel" (the operation's context is cancelled immediately before call k; the real store decides)
+	FaultKind string      `json:"fault_kind"`
+	Ok        bool        `json:"ok"`
+	Err       string      `json:"err,omitempty"`
+	Calls     []string    `json:"calls"`
+	Faults    []faultDesc `json:"faults,omitempty"`
+	Tags      []string    `json:"tags,omitempty"`
 }
 
 type faultDesc struct {
+	Kind     string `json:"fault_kind"`
 	K        int    `json:"k"`
 	Call     string `json:"call"`
 	Err      string `json:"err"`
+	Done     bool   `json:"done,omitempty"`     // cancel: the operation completed (the store ignored the dead context)
+	CtxDead  bool   `json:"ctx_dead,omitempty"` // cancel: call k was handed a context derived from the cancelled one
+	CallErr  string `json:"call_err,omitempty"` // cancel: the real store's answer to call k
 	Live     []int  `json:"live_heads"`
 	Stored   []int  `json:"stored_heads"`
 	RetryOk  bool   `json:"retry_ok"`
@@ -185,7 +192,7 @@ func emit(w *vlib.Writer, wl *WL, idx int, op OpSpec, ob *Observation, samples *
 	world := fmt.Sprintf("(mkW %s %s %s)", p.table(ob.Pre), vlib.List(trees), vlib.List(acl))
 	opT := p.opTerm(op, ob)
 	calls := make([]string, len(ob.Calls))
-	desc := caseDesc{Workload: wl.spec, Op: idx, Kind: op.Kind, Ok: ob.Ok, Err: ob.Err}
+	desc := caseDesc{Workload: wl.spec, Op: idx, Kind: op.Kind, FaultKind: faultError, Ok: ob.Ok, Err: ob.Err}
 	var unmodelled []string
 	for i, c := range ob.Calls {
 		t, un := p.call(c)
@@ -203,7 +210,7 @@ func emit(w *vlib.Writer, wl *WL, idx int, op OpSpec, ob *Observation, samples *
 	for i, f := range ob.Faults {
 		faults[i] = fmt.Sprintf("(mkF %s %s %s %s %s %s %s)", vlib.Bool(f.Err != ""), p.ns(f.Live), p.ns(f.Stored),
 			p.table(f.Table), vlib.Bool(f.RetryOk), p.ns(f.Live2), p.image(f.Final))
-		desc.Faults = append(desc.Faults, faultDesc{K: f.K, Call: ob.Calls[f.K-1].Kind, Err: f.Err, Live: wl.nums(f.Live),
+		desc.Faults = append(desc.Faults, faultDesc{Kind: faultError, K: f.K, Call: ob.Calls[f.K-1].Kind, Err: f.Err, Live: wl.nums(f.Live),
 			Stored: wl.nums(f.Stored), RetryOk: f.RetryOk, RetryErr: f.RetryErr})
 	}
 	obs := fmt.Sprintf("(mkObs %s %s %s %s %s %s %s %s)", p.n(ob.Obj), p.table(ob.Pre), vlib.Bool(ob.Ok), vlib.List(calls),
@@ -238,6 +245,48 @@ func emit(w *vlib.Writer, wl *WL, idx int, op OpSpec, ob *Observation, samples *
 	}
 	if len(*samples) < 4 && len(ob.Calls) >= 3 && idx >= 2 {
 		*samples = append(*samples, map[string]interface{}{"desc": desc, "op_term": opT})
+	}
+	if len(ob.Cancels) == 0 {
+		return
+	}
+
+	// ---- second case of the operation: fault kind "cancel" (same world, same operation, same fault-free
+	// observation without the crash images; one entry per boundary)
+	cdesc := caseDesc{Workload: wl.spec, Op: idx, Kind: op.Kind, FaultKind: faultCancel, Ok: ob.Ok, Err: ob.Err, Calls: desc.Calls}
+	cs := make([]string, len(ob.Cancels))
+	for i, f := range ob.Cancels {
+		call := ob.Calls[f.K-1].Kind
+		if f.Done {
+			cs[i] = fmt.Sprintf("(CDone %s %s)", p.ns(f.Live), p.image(f.Final))
+		} else {
+			cs[i] = fmt.Sprintf("(CErr (mkF %s %s %s %s %s %s %s))", vlib.Bool(f.Err != ""), p.ns(f.Live), p.ns(f.Stored),
+				p.table(f.Table), vlib.Bool(f.RetryOk), p.ns(f.Live2), p.image(f.Final))
+		}
+		cdesc.Faults = append(cdesc.Faults, faultDesc{Kind: faultCancel, K: f.K, Call: call, Err: f.Err, Done: f.Done,
+			CtxDead: f.CtxDead, CallErr: f.CallErr, Live: wl.nums(f.Live), Stored: wl.nums(f.Stored), RetryOk: f.RetryOk, RetryErr: f.RetryErr})
+		w.Stats["cancels"]++
+		switch {
+		case f.Done:
+			w.Stat("cancel-outcome:completed:" + call)
+		default:
+			w.Stat("cancel-outcome:failed:" + call)
+		}
+		if !f.CtxDead {
+			w.Stat("cancel-ctx-not-propagated:" + op.Kind)
+		}
+	}
+	cobs := fmt.Sprintf("(mkObs %s %s %s %s [] %s %s [])", p.n(ob.Obj), p.table(ob.Pre), vlib.Bool(ob.Ok), vlib.List(calls),
+		p.table(ob.Post), p.ns(ob.Live))
+	cterm := fmt.Sprintf("(%s\n CaseCancel %s %s %s %s)", strings.Join(p.lets, "\n "), world, opT, cobs, vlib.List(cs))
+	cci := w.Add(cterm, cdesc, key+"/cancel", len(ob.Calls) >= 3)
+	w.Stat("cancel-op:" + op.Kind)
+	for _, f := range ob.Cancels {
+		if !f.Fired {
+			w.Violation(cci, "fault-not-fired", fmt.Sprintf("call %d was not reached in the cancel run (non-deterministic call sequence)", f.K), cdesc)
+		}
+		if f.Panic != "" {
+			w.Violation(cci, "panic", fmt.Sprintf("panic after the context was cancelled at call %d: %s", f.K, f.Panic), cdesc)
+		}
 	}
 }
 
@@ -333,7 +382,7 @@ func run(o vlib.Opts) {
 	defer os.RemoveAll(root)
 	w := vlib.NewWriter(o.Out, "C10_run", 10)
 	var samples []interface{}
-	rule := "one case per workload operation; every storage-call boundary of the operation is explored as a crash image and as an injected fault (exhaustive per operation); a case is non-trivial if the operation performs >= 3 storage calls (a real transaction); distinct by (workload, operation index)"
+	rule := "two cases per workload operation: fault kind \"error\" (every storage-call boundary as a crash image and as an injected error on a live context) and fault kind \"cancel\" (the operation's context is cancelled before every storage call in turn, the real any-store decides what fails); exhaustive per operation; a case is non-trivial if the operation performs >= 3 storage calls (a real transaction); distinct by (workload, operation index, fault kind)"
 	if o.Replay != "" {
 		seen := map[string]bool{}
 		var replayed []Workload
@@ -366,5 +415,5 @@ func run(o vlib.Opts) {
 		wls = append(wls, randomWorkload(r.Fork(uint64(i)), i))
 	}
 	runAll(w, wls, root, o.Tier, &samples)
-	w.Finish(rule, samples, map[string]interface{}{"workloads": len(wls), "exhaustive": "all call boundaries of every workload operation (crash image + injected fault)"})
+	w.Finish(rule, samples, map[string]interface{}{"workloads": len(wls), "exhaustive": "all call boundaries of every workload operation (crash image + injected error + context cancelled)"})
 }
